@@ -102,3 +102,14 @@ def load_native_spec(fname):
             exec(compile(f.read(), fname, 'exec'), ns)
         _loaded[fname] = ns
     return _loaded[fname]
+
+
+def t_has(T, k):
+    return k in T
+
+
+def t_val(T, k):
+    return bool(T[k])
+
+
+NATIVE_PRIMS.update(t_has=t_has, t_val=t_val)
